@@ -63,7 +63,7 @@ const protoFile = "syntax = \"proto3\";\n\npackage test;\noption go_package = \"
 
 // index in this table = `which` of the generic streams
 var plugins = []pluginDef{
-	0: {"add_file_name", []string{`{}`, `{"field":"a.b"}`, `{"field":"log"}`}, "C13"},
+	0: {"add_file_name", []string{`{}`, `{"field":"a.b"}`, `{"field":"log"}`, `{"field":"a..b.c\\.d"}`}, "C13"},
 	1: {"add_host", []string{`{}`, `{"field":"a"}`}, "C13"},
 	2: {"cardinality", []string{
 		`{"key":["service"],"fields":["level"],"limit":2,"action":"discard"}`,
@@ -73,11 +73,16 @@ var plugins = []pluginDef{
 		`{"key":["a.b","a_b"],"fields":["level"],"limit":5}`,
 		// ttl within reach of the clock directive (2 ms) of the cardinality-ttl stream; "0s": everything older than now expires
 		`{"key":["service"],"fields":["level"],"limit":1,"ttl":"1s","action":"discard"}`,
-		`{"key":["service"],"fields":["message","level"],"limit":2,"ttl":"0s","action":"remove_fields"}`}, "C13"},
+		`{"key":["service"],"fields":["message","level"],"limit":2,"ttl":"0s","action":"remove_fields"}`,
+		// coverage round: an empty key list (every event shares the key "[]")
+		`{"key":[],"fields":["level"],"limit":1,"action":"discard"}`}, "C13"},
 	3: {"convert_date", []string{`{}`,
 		`{"field":"time","source_formats":["rfc3339nano","rfc3339","unixtime"],"target_format":"rfc3339","remove_on_fail":true}`,
 		`{"field":"a.b","source_formats":["2006-01-02","unixtimemilli","ansic"],"target_format":"unixtimenano"}`,
-		`{"field":"ts","source_formats":["unixtime"],"target_format":"2006/01/02 15:04:05"}`}, "C13"},
+		`{"field":"ts","source_formats":["unixtime"],"target_format":"2006/01/02 15:04:05"}`,
+		// coverage round: the target formats of Do's switch the table did not name
+		`{"field":"time","source_formats":["rfc3339nano","unixtime","unixtimemicro"],"target_format":"unixtimemicro"}`,
+		`{"field":"ts","source_formats":["unixtimenano","unixtimemilli","unixtime"],"target_format":"unixtimemilli"}`}, "C13"},
 	4: {"convert_log_level", []string{`{}`,
 		`{"style":"string","default_level":"info","remove_on_fail":true}`,
 		`{"field":"a.b","style":"number","remove_on_fail":true}`,
@@ -98,6 +103,8 @@ var plugins = []pluginDef{
 		`{"field":"log","decoder":"syslog_rfc5424","prefix":"s_"}`,
 		`{"field":"log","decoder":"csv","params":{"columns":["a","b","c"],"delimiter":",","invalid_line_mode":"continue"}}`,
 		`{"field":"a.b","decoder":"csv","params":{"prefix":"col","delimiter":";"}}`,
+		// coverage round: named columns with the default invalid_line_mode (a row of another length is refused, not fatal)
+		`{"field":"log","decoder":"csv","prefix":"c_","params":{"columns":["a","b"]}}`,
 		`{"field":"log","decoder":"protobuf","prefix":"p_","params":{"proto_message":"MyMessage","proto_file":` + jsonStr(protoFile) + `}}`}, "C12"},
 	8: {"discard", []string{`{}`}, "C13"},
 	9: {"flatten", []string{`{"field":"a","prefix":"pre_"}`, `{"field":"a.b"}`, `{"field":"log","prefix":"log."}`}, "C13"},
@@ -107,7 +114,10 @@ var plugins = []pluginDef{
 		`{"fields":[{"field":"log","format":"normalize"}],"result_field":"hash","normalizer":{"builtin_patterns":"curly_bracketed|square_bracketed|parenthesized|double_quoted|single_quoted|grave_quoted"}}`,
 		`{"fields":[{"field":"log","format":"normalize"},{"field":"message","format":"normalize"}],"result_field":"message","normalizer":{"builtin_patterns":"int|uuid|double_quoted","custom_patterns":[{"placeholder":"<date>","re":"\\d\\d\\.\\d\\d\\.\\d\\d\\d\\d","priority":"last"},{"placeholder":"<nginx_datetime>","re":"\\d\\d\\d\\d/\\d\\d/\\d\\d\\ \\d\\d:\\d\\d:\\d\\d","priority":"first"}]}}`,
 		// every built-in pattern and no max_size: the fixed-length tokens (uuid, md5 / sha1 / sha256) can match
-		`{"fields":[{"field":"message","format":"normalize"},{"field":"log","format":"normalize"}],"result_field":"hash"}`}, "C13"},
+		`{"fields":[{"field":"message","format":"normalize"},{"field":"log","format":"normalize"}],"result_field":"hash"}`,
+		// coverage round: only lexer patterns (Normalize scans the data itself, no tokenizer pass), and no built-in pattern at all
+		`{"fields":[{"field":"message","format":"normalize"},{"field":"log","format":"normalize","max_size":20}],"result_field":"hash","normalizer":{"builtin_patterns":"int|uuid|ip"}}`,
+		`{"fields":[{"field":"log","format":"normalize"},{"field":"message","format":"normalize"}],"result_field":"hash","normalizer":{"builtin_patterns":"no","custom_patterns":[{"placeholder":"<n>","re":"\\d+","priority":"first"},{"placeholder":"<w>","re":"[a-c]+x","priority":"last"}]}}`}, "C13"},
 	11: {"join", []string{
 		`{"field":"log","start":"/^(panic:)|(http: panic serving)/","continue":"/(^\\s*$)|(goroutine [0-9]+ \\[)|(\\([0-9]+x[0-9,a-f]+)|(\\.go:[0-9]+ \\+[0-9]x)|(\\/.*\\.go:[0-9]+)|(\\(...\\))|(main\\.main\\(\\))|(created by .*\\/.*\\.)|(^\\[signal)|(panic.+[0-9]x[0-9,a-f]+)|(panic:)/"}`,
 		`{"field":"log","start":"/^a/","continue":"/^b/","max_event_size":10}`,
@@ -116,7 +126,9 @@ var plugins = []pluginDef{
 	12: {"join_template", []string{
 		`{"field":"log","template":"go_panic"}`,
 		`{"field":"log","templates":["go_panic","cs_exception","go_data_race"],"max_event_size":50}`,
-		`{"field":"message","templates":["cs_exception"]}`}, "C15"},
+		`{"field":"message","templates":["cs_exception"]}`,
+		// coverage round: the deprecated single template next to the list (the list wins)
+		`{"field":"log","template":"go_panic","templates":["cs_exception","go_panic"]}`}, "C15"},
 	13: {"json_decode", []string{`{"field":"log"}`, `{"field":"a.b","prefix":"p_","log_json_parse_error_mode":"withnode"}`,
 		`{"field":"message","prefix":"m.","log_json_parse_error_mode":"erronly"}`}, "C13"},
 	14: {"json_encode", []string{`{"field":"a"}`, `{"field":"a.b"}`, `{"field":"items"}`, `{"field":"message"}`}, "C13"},
@@ -124,14 +136,27 @@ var plugins = []pluginDef{
 		`{"field":"log","extract_field":"a.b"}`,
 		`{"field":"log","extract_fields":["a","b.c","b.d","message","level"],"prefix":"x_"}`,
 		`{"field":"message","extract_field":"level","extract_fields":["level","a.b.c","a.b.d","a.e"]}`}, "C13"},
-	16: {"keep_fields", []string{`{"fields":["a.b","message"]}`, `{"fields":["level"]}`, `{"fields":["a.b.c","a.e","items","log"]}`}, "C18"},
+	16: {"keep_fields", []string{`{"fields":["a.b","message"]}`, `{"fields":["level"]}`, `{"fields":["a.b.c","a.e","items","log"]}`,
+		// coverage round: a duplicate and a nested selector (cfg.ParseNestedFields drops both)
+		`{"fields":["a.b","a","a.b","a..c","level","a"]}`}, "C18"},
 	17: {"mask", []string{
 		`{"masks":[{"re":"\\b(\\d{1,4})\\D?(\\d{1,4})\\D?(\\d{1,4})\\D?(\\d{1,4})\\b","groups":[1,2,3]}]}`,
 		`{"masks":[{"re":"(\\d)(\\d)?","groups":[1,2],"max_count":3},{"re":"(test)","groups":[1],"process_fields":["message"],"replace_word":"***"}],"mask_applied_field":"masked","mask_applied_value":"yes","ignore_fields":["a.b"]}`,
 		`{"masks":[{"re":"a(b)?","groups":[1]},{"re":"(x+)","groups":[0],"cut_values":true}],"process_fields":["message","log","a.b"],"skip_mismatched":true}`,
 		`{"masks":[{"match_rules":[{"rules":[{"values":["secret"],"mode":"contains","case_insensitive":true}]}],"re":"(\\w+)","groups":[0],"metric_name":"m1","metric_labels":["service"]}],"applied_metric_labels":["service","level"]}`,
 		// option interplay: a mask's own metric named like the plugin-level applied metric (registration is skipped with an error log, the config is accepted)
-		`{"masks":[{"re":"(\\d+)","groups":[1],"metric_name":"mask_applied_total"},{"re":"(secret)","groups":[1],"metric_name":"m2","metric_labels":["level"]}],"applied_metric_name":"m2"}`}, "C17"},
+		`{"masks":[{"re":"(\\d+)","groups":[1],"metric_name":"mask_applied_total"},{"re":"(secret)","groups":[1],"metric_name":"m2","metric_labels":["level"]}],"applied_metric_name":"m2"}`,
+		// coverage round. Nested / coinciding groups in any order (a section inside one already masked), a mask's own
+		// ignore list with an array index, a mask's own applied field, next to a global ignore list
+		`{"masks":[{"re":"((\\d)\\d)(\\d)?","groups":[3,2,1]},{"re":"(a)|(b)","groups":[1,2],"ignore_fields":["a.b","items.1","log"],"applied_field":"m_applied","applied_value":"1"}],"ignore_fields":["level"]}`,
+		// every mask has its own list: the global one is dropped with a warning
+		`{"masks":[{"re":"(\\d+)","groups":[1],"process_fields":["message","items.0"]},{"re":"(x)","groups":[1],"ignore_fields":["log"],"cut_values":true}],"process_fields":["a"]}`,
+		// a global ignore list alone (the fast path that skips an ignored field), array elements by index
+		`{"masks":[{"re":"(\\d+)","groups":[0],"max_count":2}],"ignore_fields":["a.b","message","items.0","items.2.x"]}`,
+		// a global process list next to one mask with its own list and one without
+		`{"masks":[{"re":"(\\d+)","groups":[1]},{"re":"(b+)","groups":[1],"ignore_fields":["a.b"],"replace_word":"<b>"}],"process_fields":["message","a","items.1"]}`,
+		// masks switched by their own do_if on the event
+		`{"masks":[{"re":"(\\w+)","groups":[1],"do_if":{"op":"equal","field":"level","values":["error","3"]}},{"re":"(\\d)","groups":[1],"do_if":{"op":"not","operands":[{"op":"contains","field":"message","values":["secret"]}]},"applied_field":"d","applied_value":"v"}],"mask_applied_field":"masked"}`}, "C17"},
 	18: {"modify", []string{
 		`{"new":"value is ${a.b}."}`,
 		`{"level":"${message|re(\"(\\\\w+):.*\",-1,[1],\",\")}"}`,
@@ -145,7 +170,9 @@ var plugins = []pluginDef{
 		// and the nested groups make the result longer than the source (regex_filter.go: cap(dst) < len(r.buf))
 		`{"x":"${message|cut(\"last\",2)|re(\"((.)(.)?)\",-1,[1,2,3],\"\")}","y":"${log|trim(\"left\",\" xab\")|re(\"(\\\\w)(\\\\w)?\",-1,[2,1],\"+\")}"}`,
 		// several re filters in one instance: they all share the one 1024-byte filtersBuf of modify.Start
-		`{"x":"${message|re(\"(\\\\w+)\",-1,[1],\" \")}-${log|re(\"(\\\\d+)(\\\\D)?\",2,[2,1],\"\")}","y":"${level|trim(\"all\",\" \")|re(\"(a)|(b)\",-1,[2,1],\",\",true)|re(\"((.*))\",1,[1,2],\"\")}"}`}, "C13"},
+		`{"x":"${message|re(\"(\\\\w+)\",-1,[1],\" \")}-${log|re(\"(\\\\d+)(\\\\D)?\",2,[2,1],\"\")}","y":"${level|trim(\"all\",\" \")|re(\"(a)|(b)\",-1,[2,1],\",\",true)|re(\"((.*))\",1,[1,2],\"\")}"}`,
+		// coverage round: an empty substitution (no operation at all: the key is skipped by Start)
+		`{"x":"","a..y":"${level}","_skip_empty":"false"}`}, "C13"},
 	19: {"move", []string{
 		`{"fields":["a","message"],"mode":"allow","target":"t"}`,
 		`{"fields":["level","log"],"mode":"block","target":"t"}`,
@@ -160,16 +187,24 @@ var plugins = []pluginDef{
 	22: {"remove_fields", []string{`{"fields":["a.b","message"]}`, `{"fields":["level","a","a.b","items"]}`}, "C18"},
 	23: {"rename", []string{`{"a":"b","message":"msg"}`, `{"override":"true","a.b":"level","_override":"x","log":"message"}`,
 		`{"a.b":"a","level":"a"}`}, "C13"},
-	24: {"set_time", []string{`{}`, `{"field":"time","format":"unixtime","override":false}`, `{"field":"a","format":"2006-01-02"}`}, "C13"},
+	24: {"set_time", []string{`{}`, `{"field":"time","format":"unixtime","override":false}`, `{"field":"a","format":"2006-01-02"}`,
+		`{"field":"ts","format":"unixtimemicro"}`, `{"field":"a","format":"timestampmicro","override":false}`}, "C13"},
 	25: {"split", []string{`{"field":"items"}`, `{"field":"a.b"}`, `{"field":"log"}`}, "C13"},
 	26: {"throttle", []string{
 		`{"throttle_field":"service","default_limit":3,"bucket_interval":"1m","buckets_count":3,"time_field":"time"}`,
 		`{"throttle_field":"a.b","time_field":"ts","time_field_format":"unixtime","default_limit":100,"limit_kind":"size","rules":[{"limit":1,"limit_kind":"count","conditions":{"level":"error"}},{"limit":2,"limit_kind":"size","conditions":{"service":"x","level":"warn"}}]}`,
-		`{"default_limit":4,"limit_distribution":{"field":"level","ratios":[{"ratio":0.5,"values":["error"]},{"ratio":0.3,"values":["warn","info"]}],"metric_labels":["service"]}}`}, "C16"},
+		`{"default_limit":4,"limit_distribution":{"field":"level","ratios":[{"ratio":0.5,"values":["error"]},{"ratio":0.3,"values":["warn","info"]}],"metric_labels":["service"]}}`,
+		// coverage round: no time field (the wall clock), an unlimited key; a distribution over sizes whose default share is 0
+		// (every other value borrows from the freest share); a distribution field without ratios; a rule with its own distribution;
+		// the redis key override read from the event although the back end is the memory one
+		`{"throttle_field":"service","time_field":"","default_limit":-1,"rules":[{"limit":-1,"limit_kind":"count","conditions":{"level":"error"}}]}`,
+		`{"default_limit":200,"limit_kind":"size","time_field":"","limit_distribution":{"field":"level","ratios":[{"ratio":0.5,"values":["error"]},{"ratio":0.5,"values":["warn",""]}],"metric_labels":["service"]}}`,
+		`{"default_limit":2,"limit_distribution":{"field":"level"},"rules":[{"limit":3,"limit_kind":"size","conditions":{"service":"x"},"limit_distribution":{"field":"a.b","ratios":[{"ratio":1,"values":["x"]}]}}],"redis_backend_config":{"limiter_key_field":"service"}}`}, "C16"},
 	27: {"k8s-multiline", []string{
 		`{"offsets_file":"/tmp/verif_c13_offsets.yaml","split_event_size":1000000}`,
 		`{"offsets_file":"/tmp/verif_c13_offsets.yaml","split_event_size":1000000,"only_node":true}`,
-		`{"offsets_file":"/tmp/verif_c13_offsets.yaml","split_event_size":131100,"allowed_pod_labels":["app"]}`}, "C15"},
+		`{"offsets_file":"/tmp/verif_c13_offsets.yaml","split_event_size":131100,"allowed_pod_labels":["app"]}`,
+		`{"offsets_file":"/tmp/verif_c13_offsets.yaml","split_event_size":131110,"allowed_node_labels":["zone"]}`}, "C15"},
 }
 
 var pluginIdx = func() map[string]int {
@@ -243,6 +278,7 @@ func k8sMeta() {
 		pod.Labels = map[string]string{"app": "x", "tier": "y"}
 		meta.PutMeta(pod)
 		meta.SelfNodeName = "node_1"
+		meta.MetaData.NodeLabels = map[string]string{"zone": "z1", "role": "r"}
 	})
 }
 
@@ -259,6 +295,8 @@ type pluginSpec struct {
 	index  int
 	st     *pipeline.Settings
 	metric *metric.Ctl
+	// the limits file a throttle configuration with the place-holder "limits_file":"fake-limits" got ("" = none)
+	limitsFile string
 }
 
 // newSpec runs the collector's own validation path (GetConfig = cfg.DecodeConfig + cfg.Parse).
@@ -266,6 +304,10 @@ func newSpec(typ string, cfgJSON []byte, st *pipeline.Settings, index int) (*plu
 	info, e := fd.DefaultPluginRegistry.GetActionByType(typ)
 	if e != nil {
 		return nil, "unknown action type " + typ
+	}
+	limitsFile := ""
+	if typ == "throttle" { // the place-holders of the in-process redis and of the case's own limits file (fakeredis.go)
+		cfgJSON, limitsFile = withFakeBackends(cfgJSON)
 	}
 	conf, e := pipeline.GetConfig(info, cfgJSON, map[string]int{"gomaxprocs": 4, "capacity": 256})
 	if e != nil {
@@ -293,7 +335,7 @@ func newSpec(typ string, cfgJSON []byte, st *pipeline.Settings, index int) (*plu
 		name = fmt.Sprintf("verif_c13_hash_%x", h.Sum64())
 		index = 0
 	}
-	return &pluginSpec{typ: typ, info: info, conf: conf, name: name, index: index, st: st,
+	return &pluginSpec{typ: typ, info: info, conf: conf, name: name, index: index, st: st, limitsFile: limitsFile,
 		metric: metric.NewCtl("verif", prometheus.NewRegistry(), time.Minute, 0)}, ""
 }
 
